@@ -6,6 +6,7 @@ package main
 import (
 	"errors"
 	"fmt"
+	"io"
 	"runtime/debug"
 	"strconv"
 	"strings"
@@ -467,6 +468,14 @@ func runCall(input []byte, c cfg) (out callOut) {
 			out.fails = append(out.fails, fail{"result/parse/neither-value-nor-error", "ParseFile returned (nil, nil)"})
 		default:
 			out.class, out.detail, out.parsed = "parse:ok", "ok", true
+		}
+		// the same input parsed with a trace writer (the parser's debugging mode): same verdict, no panic
+		stage = "parse-traced"
+		fs2 := parser.NewFileSet()
+		sf2 := fs2.AddFile("(main)", -1, len(mainSrc))
+		file2, err2 := parser.NewParser(sf2, mainSrc, io.Discard).ParseFile()
+		if (err2 == nil) != (err == nil) || (err != nil && err2.Error() != err.Error()) || (file2 == nil) != (file == nil) {
+			out.fails = append(out.fails, fail{"result/parse/traced-parse-differs", fmt.Sprintf("without trace: %v; with a trace writer: %v", err, err2)})
 		}
 
 	case "compile":
